@@ -262,7 +262,7 @@ Lemma overlap_slices_inv b ny nx L S : overlap_slices b ny nx = Some (L, S) ->
        (Z.max (ixmin b) 0 - ixmin b, Z.min (ixmax b) nx - ixmin b)).
 Proof.
   unfold overlap_slices.
-  destruct ((ixmin b >=? nx) || (iymin b >=? ny) || (ixmax b <=? 0) || (iymax b <=? 0)) eqn:E; [discriminate|].
+  destruct ((ixmin b >=? nx) || (iymin b >=? ny) || (ixmax b <=? 0) || (iymax b <=? 0) || (ny <=? 0) || (nx <=? 0)) eqn:E; [discriminate|].
   intros H. injection H as <- <-.
   repeat (apply orb_false_iff in E; destruct E as [E ?]).
   repeat split; try lia.
@@ -270,10 +270,10 @@ Proof.
 Qed.
 
 Lemma overlap_slices_none b ny nx : overlap_slices b ny nx = None <->
-  (ixmin b >= nx \/ iymin b >= ny \/ ixmax b <= 0 \/ iymax b <= 0).
+  (ixmin b >= nx \/ iymin b >= ny \/ ixmax b <= 0 \/ iymax b <= 0 \/ ny <= 0 \/ nx <= 0).
 Proof.
   unfold overlap_slices.
-  destruct ((ixmin b >=? nx) || (iymin b >=? ny) || (ixmax b <=? 0) || (iymax b <=? 0)) eqn:E.
+  destruct ((ixmin b >=? nx) || (iymin b >=? ny) || (ixmax b <=? 0) || (iymax b <=? 0) || (ny <=? 0) || (nx <=? 0)) eqn:E.
   - split; [intros _|reflexivity].
     repeat (apply orb_true_iff in E; destruct E as [E|E]); lia.
   - split; [discriminate|]. intros H.
@@ -1475,10 +1475,12 @@ Proof.
     rewrite (rect_shape n m m0 Hmr Hn), (rect_shape n m d0 Hr Hn). apply shape_eqb_refl. }
   rewrite (E2 ny nx data mask Hny Hd Hm), (E2 ny' nx' data' mask') by (try assumption; lia). cbn [negb].
   unfold get_overlap_cutouts, overlap_slices, shift_box. cbn [ixmin ixmax iymin iymax].
-  destruct ((ixmin b >=? Z.of_nat nx) || (iymin b >=? Z.of_nat ny) || (ixmax b <=? 0) || (iymax b <=? 0)) eqn:C1.
+  destruct ((ixmin b >=? Z.of_nat nx) || (iymin b >=? Z.of_nat ny) || (ixmax b <=? 0) || (iymax b <=? 0) ||
+            (Z.of_nat ny <=? 0) || (Z.of_nat nx <=? 0)) eqn:C1.
   { exfalso. repeat (apply orb_true_iff in C1; destruct C1 as [C1|C1]); lia. }
   destruct ((ixmin b + Z.of_nat dx >=? Z.of_nat nx') || (iymin b + Z.of_nat dy >=? Z.of_nat ny') ||
-            (ixmax b + Z.of_nat dx <=? 0) || (iymax b + Z.of_nat dy <=? 0)) eqn:C2.
+            (ixmax b + Z.of_nat dx <=? 0) || (iymax b + Z.of_nat dy <=? 0) ||
+            (Z.of_nat ny' <=? 0) || (Z.of_nat nx' <=? 0)) eqn:C2.
   { exfalso. repeat (apply orb_true_iff in C2; destruct C2 as [C2|C2]); lia. }
   - repeat (apply orb_false_iff in C1; destruct C1 as [C1 ?]).
     replace (Z.max (iymin b) 0) with (iymin b) by lia. replace (Z.min (iymax b) (Z.of_nat ny)) with (iymax b) by lia.
